@@ -230,8 +230,14 @@ class World:
                 from .ast import template_class
                 from .ast import to_source
                 cls = template_class(self.syntax)
-                return cls(to_source(nodes, self.syntax, self.style), **d)
+                t = cls(to_source(nodes, self.syntax, self.style), **d)
+                if len(spec) > 3:
+                    # values set on the template with var()
+                    t.var(**{a: self.build(v) for a, v in spec[3].items()})
+                return t
             from .refsem import RefTemplate
+            if len(spec) > 3:
+                d = dict(d, **{a: self.build(v) for a, v in spec[3].items()})
             return RefTemplate(nodes, d)
         if k == 'exc':
             return exc_class(spec[1])
